@@ -90,7 +90,7 @@ class KaniJob:
         path = os.path.join(KDIR, contract_file)
         if not os.path.exists(path):
             raise Undecided("missing contract file " + path)
-        self.appends.append((relfile, '\n#[cfg(kani)]\nmod %s {\n    #![allow(unused)]\n    use super::*;\n    include!("%s");\n}\n' % (modname, path)))
+        self.appends.append((relfile, '\n#[cfg(kani)]\npub(crate) mod %s {\n    #![allow(unused)]\n    use super::*;\n    include!("%s");\n}\n' % (modname, path)))
 
     def include_in_macro(self, relfile, macro_name, contract_file, modname="verif_kani"):
         path = os.path.join(KDIR, contract_file)
